@@ -1,6 +1,7 @@
 """Shard worker: python -m vf.shard <ID> <spec.json> <out.json>. Imports bare_script from the current /repo tree."""
 import faulthandler
 import json
+import os
 import random
 import sys
 
@@ -16,10 +17,23 @@ def main():
     random.seed(spec.get('seed', 0))
     mod = core.load_check(prop)
     acc = core.Acc(prop)
-    if spec.get('mode') == 'replay':
-        mod.replay(spec, acc)
-    else:
-        mod.run_shard(spec, acc)
+    try:
+        if spec.get('mode') == 'replay':
+            mod.replay(spec, acc)
+        else:
+            mod.run_shard(spec, acc)
+    except Exception as exc:  # pylint: disable=broad-except
+        # An exception the driver did not anticipate: if it was raised INSIDE the code under observation (innermost frame
+        # in the repository tree) the monitored call failed where the property allows no failure -> violation, with the
+        # results gathered so far kept. Anything else is a harness defect: re-raise (the parent reports "inconclusive").
+        import traceback
+        tb = traceback.extract_tb(exc.__traceback__)
+        inner = tb[-1].filename if tb else ''
+        if os.path.realpath(inner).startswith(os.path.realpath(core.REPO_SRC) + os.sep):
+            acc.violation('unexpected-exception-in-observed-code', f'{type(exc).__name__}: {exc}\n' + ''.join(traceback.format_list(tb[-6:])),
+                          {'shard': spec.get('part'), 'exception': type(exc).__name__})
+        else:
+            raise
     with open(out_path, 'w', encoding='utf-8') as fh:
         json.dump(acc.result(), fh, default=repr)
 
